@@ -18,6 +18,10 @@ CLAIMED = {
    text="Kernel-checked theorems: the mixers equal the SHA-256 derivation (Gallina SHA-256 validated on NIST vectors) of the key strings regenerated from the current source; shard_ids yields two distinct in-range ids by wrapping multiply-add then (n*x)>>64 with the collision fix-up, as a closed function of (hash, secondary, n); directory names are '.kismet_' + >=4 lowercase hex digits, injective, never a valid key, never the temp dir. Tie: boundary/random hash pairs x shard counts through the real sharded cache (where a put lands, temp dir offered, lookup/touch/overwrite in the secondary candidate, invisibility of other shards).",
    ref="DESIGN.md section 6 C12", technique="Rocq proof (vm_compute for SHA-256 constants, arithmetic lemmas, hex round-trip) + model/implementation correspondence",
    note="Trusted: Coq kernel (vm_compute), extraction, harness, constant extractor; 64-bit usize; probe ORDER is additionally checked on intercepted call traces once the shim-based checks run (C13/C20)."),
+ "C20": dict(
+   text="Kernel-checked theorems, for ARBITRARY call results (hence every directory population, fault and interference): descriptor peak and residual of every operation (get 1, or 3 while a checker compares; touch/set/put 1; ensure/get_or_update 2, 3 with a checker; maintenance 1; only the returned handle stays open), by compositional 'fd triples' over the program terms; call budgets of get/touch/set/put that depend on the configuration only while no maintenance is requested, with no directory listing; no lock in the call vocabulary. Tie: canonical call-trace equality model vs implementation over op x front-end x depth x directory sizes {0,10,100,600/2000}, and the property's own monitors on the implementation's traces (count identical across sizes, no opendir, <=2 opens per directory, peak/residual cross-checked with /proc/self/fd, lock calls fail the run).",
+   ref="DESIGN.md section 6 C20", technique="Rocq proof (weakest preconditions of program trees w.r.t. trace monitors, for all environment responses) + trace correspondence through an LD_PRELOAD interposer",
+   note="Trusted: Coq kernel, extraction, shim/harness/trace canonicaliser; callbacks are assumed not to leak or hold descriptors; memory use is not modelled. Finding F5 (three descriptors during a reprieving maintenance under ensure) was reproduced by this check and repaired by fix commit c8b1352; the pinned behaviour is kept as prune_pinned with C20_peak_refuted_pinned."),
 }
 
 checks, na = [], []
@@ -44,7 +48,7 @@ m = {
  "setup_cmd": "./setup.sh",
  "hooks": {"guard": "kismet_verif", "enable": "RUSTFLAGS=\"--cfg kismet_verif\" (set by the harness build in vlib/common.py)",
            "baseline_off_cmd": "cd /repo && cargo test --workspace --no-fail-fast --offline",
-           "source_commits": [], "add_only": True},
+           "source_commits": ["48f318f"], "add_only": True},
  "engines": [{"name": "kismet-rocq", "path": "/verif/coq", "serves_properties": [c["property_id"] for c in checks],
               "kind_free_text": "Rocq (Coq 8.16.1) development: executable Gallina model + theorems; extracted OCaml model, Rust harness and LD_PRELOAD shim for the correspondence with /repo"}],
  "checks": checks,
